@@ -135,6 +135,9 @@ Definition model_agrees (cfg : str) (w : world) (ep : endpoint) (ob : observed) 
 (* judgement 2: the property, evaluated on what the implementation did *)
 Definition spec_agrees (cfg : str) (w : world) (ep : endpoint) (ob : observed) : bool :=
   let hops := spec_followed w in
+  (* a base the client refuses (no http scheme, control character, broken escape, space in the
+     host) never leaves the client: like a refusing limiter, after the limiter was asked *)
+  let permitted := fun w ep => permitted w ep && negb (url_refused (spec_base cfg)) in
   let want_events :=
     (if waits w ep then [1] else []) ++
     (if permitted w ep then repeat 2 (S (List.length hops)) else []) in
